@@ -73,11 +73,14 @@ pub struct Cfg {
 	/// build every per-connection service through `TowerServiceBuilder::set_http_middleware` (identity middleware)
 	#[serde(default)]
 	pub via_set_http_middleware: bool,
+	/// likewise through `TowerServiceBuilder::set_rpc_middleware` (identity middleware) on the per-connection clone
+	#[serde(default)]
+	pub via_set_rpc_middleware: bool,
 }
 
 impl Default for Cfg {
 	fn default() -> Self {
-		Cfg { max_request: 10 * 1024 * 1024, max_response: 10 * 1024 * 1024, max_connections: 100, max_subs: 1024, batch: BatchCfg::Unlimited, buffer_capacity: 1024, mode: 0, ping: None, ping_fine: None, entry: 0, via_set_http_middleware: false }
+		Cfg { max_request: 10 * 1024 * 1024, max_response: 10 * 1024 * 1024, max_connections: 100, max_subs: 1024, batch: BatchCfg::Unlimited, buffer_capacity: 1024, mode: 0, ping: None, ping_fine: None, entry: 0, via_set_http_middleware: false, via_set_rpc_middleware: false }
 	}
 }
 
@@ -205,6 +208,8 @@ pub struct HCtx {
 	pub gates: Gates,
 	pub actors: Mutex<Vec<ActorHandle>>,
 	pub guard_seen: Mutex<Vec<(usize, usize)>>,
+	/// the subscription id each actor's pending sink carries (same index as `actors`), known before anybody accepts
+	pub sub_ids: Mutex<Vec<Value>>,
 }
 
 impl HCtx {
@@ -242,7 +247,11 @@ impl IntoSubscriptionCloseResponse for Ret {
 async fn actor(method: &'static str, params: Params<'static>, pending: PendingSubscriptionSink, ctx: Arc<HCtx>, conn_id: usize) -> Ret {
 	let (tx, mut rx) = mpsc::unbounded_channel::<(Cmd, oneshot::Sender<Ack>)>();
 	ctx.record(method, &params, "started");
-	ctx.actors.lock().push(ActorHandle { method, conn_id, params: params.as_str().map(|s| s.to_string()), tx });
+	{
+		let mut a = ctx.actors.lock();
+		a.push(ActorHandle { method, conn_id, params: params.as_str().map(|s| s.to_string()), tx });
+		ctx.sub_ids.lock().push(serde_json::to_value(pending.subscription_id()).unwrap_or(Value::Null));
+	}
 	let mut pending = Some(pending);
 	let mut sinks: Vec<Option<SubscriptionSink>> = vec![];
 	let tag = format!("{method}");
@@ -498,6 +507,15 @@ pub fn build_module(ctx: Arc<HCtx>) -> RpcModule<HCtx> {
 		actor("sub_b", p, pending, c, conn)
 	})
 	.unwrap();
+	// a raw subscription: the handler is its own task and survives the subscribe call being given up
+	m.register_subscription_raw("sub_r", "notif_r", "unsub_r", |p, pending, c, ext| {
+		let conn = ext.get::<jsonrpsee_core::server::ConnectionId>().map(|c| c.0).unwrap_or(usize::MAX);
+		let p = p.into_owned();
+		tokio::spawn(async move {
+			let _ = actor("sub_r", p, pending, c, conn).await;
+		});
+	})
+	.unwrap();
 	m
 }
 
@@ -564,7 +582,7 @@ impl Fixture {
 		Self::new_with(cfg, false)
 	}
 	pub fn new_with(cfg: Cfg, string_ids: bool) -> Fixture {
-		let ctx = Arc::new(HCtx { log: Mutex::new(vec![]), gates: Gates::default(), actors: Mutex::new(vec![]), guard_seen: Mutex::new(vec![]) });
+		let ctx = Arc::new(HCtx { log: Mutex::new(vec![]), gates: Gates::default(), actors: Mutex::new(vec![]), guard_seen: Mutex::new(vec![]), sub_ids: Default::default() });
 		let module = build_module(ctx.clone());
 		let methods: Methods = module.into();
 		let forced_ids: Arc<Mutex<std::collections::VecDeque<Value>>> = Default::default();
@@ -575,11 +593,13 @@ impl Fixture {
 	}
 
 	pub fn service(&self) -> Svc {
-		if self.cfg.via_set_http_middleware {
-			// the idiom of examples/jsonrpsee_as_service.rs: per-connection clone of a shared builder, middleware set on the clone
-			self.builder.clone().set_http_middleware(tower::ServiceBuilder::new()).build(self.methods.clone(), self.stop.clone())
-		} else {
-			self.builder.clone().build(self.methods.clone(), self.stop.clone())
+		// the idiom of examples/jsonrpsee_as_service.rs: per-connection clone of a shared builder, middleware set on the clone
+		use jsonrpsee_server::middleware::rpc::RpcServiceBuilder;
+		match (self.cfg.via_set_http_middleware, self.cfg.via_set_rpc_middleware) {
+			(true, true) => self.builder.clone().set_http_middleware(tower::ServiceBuilder::new()).set_rpc_middleware(RpcServiceBuilder::new()).build(self.methods.clone(), self.stop.clone()),
+			(true, false) => self.builder.clone().set_http_middleware(tower::ServiceBuilder::new()).build(self.methods.clone(), self.stop.clone()),
+			(false, true) => self.builder.clone().set_rpc_middleware(RpcServiceBuilder::new()).build(self.methods.clone(), self.stop.clone()),
+			(false, false) => self.builder.clone().build(self.methods.clone(), self.stop.clone()),
 		}
 	}
 
